@@ -1,6 +1,7 @@
 package rfc1035label
 
 import (
+	"bytes"
 	"errors"
 	"fmt"
 	"strings"
@@ -74,7 +75,8 @@ func (l *Labels) FromBytes(data []byte) error {
 	if err != nil {
 		return err
 	}
-	l.original = data
+	// keep a private copy: the caller may reuse or overwrite data
+	l.original = bytes.Clone(data)
 	l.Labels = labs
 	return nil
 }
